@@ -103,6 +103,8 @@ def run(tier):
         inplace.run(chk, 'C17.inplace', prog, cfgname)
         inplace.match_count_rule(chk, 'C17.count', prog, cfgname)
         inplace.heap_rules(chk, 'C17.heap', prog, cfgname)
+        from ..rules import logdom
+        logdom.run(chk, 'C17.logdom', prog, cfgname)
         if inplace.reset_cover_rule(chk, 'C17.reset', prog, cfgname) < 4:
             raise AnalysisBroken('C17: reset loops of mc64bd_/mc64wd_ not found')
         fnames = {f.name for f in prog.all_funcs() if f.unit.endswith(('ldperm.c', 'mc64ad.c'))}
